@@ -12,6 +12,7 @@ import (
 	"github.com/ipld/go-ipld-prime/codec"
 	"io"
 	"io/fs"
+	"runtime"
 	"sync"
 	"syscall"
 
@@ -144,6 +145,10 @@ type Store struct {
 	CancelAt int
 	Cancel   func()
 
+	// Yield: every read open, write open and commit first gives up the processor (runtime.Gosched), as a store that
+	// blocks on I/O does: in checks that run several goroutines this opens the windows between a library call's steps
+	Yield bool
+
 	// work budget (C13): once more than LoadBudget reads were requested every further read fails
 	LoadBudget     int
 	BudgetExceeded bool
@@ -199,6 +204,9 @@ func (s *Store) Len() int {
 
 func (s *Store) openRead(_ linking.LinkContext, l datamodel.Link) (io.Reader, error) {
 	c := l.(cidlink.Link).Cid
+	if s.Yield {
+		runtime.Gosched()
+	}
 	s.mu.Lock()
 	defer s.mu.Unlock()
 	s.Reads = append(s.Reads, c)
@@ -246,6 +254,9 @@ func (w *faultWriter) Write(p []byte) (int, error) {
 }
 
 func (s *Store) openWrite(_ linking.LinkContext) (io.Writer, linking.BlockWriteCommitter, error) {
+	if s.Yield {
+		runtime.Gosched()
+	}
 	s.mu.Lock()
 	s.Opens++
 	k := s.Opens
@@ -263,6 +274,9 @@ func (s *Store) openWrite(_ linking.LinkContext) (io.Writer, linking.BlockWriteC
 			return s.fault(fmt.Sprintf("commit #%d", k))
 		}
 		c := l.(cidlink.Link).Cid
+		if s.Yield {
+			runtime.Gosched()
+		}
 		s.mu.Lock()
 		defer s.mu.Unlock()
 		if _, ok := s.Blocks[c]; !ok {
